@@ -1,6 +1,7 @@
 import CM.Ops.Core
 import CM.Spec.RenderSpec
 import CM.Spec.Tokenizer
+import CM.Proofs.FilterRenderBase
 namespace CM.Ops
 open CM CM.Model
 
@@ -55,6 +56,15 @@ def renderOp : Op
     | _, _ => bad
   | _ => bad
 
+/-- `seams <soft> <ignoreRaw> <filter> <srcHex> <tree> <refs> <ext>` → whether the tree meets the hypothesis
+    `rawSeamsOK` of the whole-page theorems of C17 (no name candidate straddles a verbatim-copied slice and what follows). -/
+def seamsOp : Op
+  | [soft, ig, filter, src, tree, refs, ext] =>
+    match mkCtx soft ig filter src refs ext, Wire.treeOfString tree with
+    | some cx, some t => if CM.Proofs.rawSeamsOK cx t then "ok" else "seam"
+    | _, _ => bad
+  | _ => bad
+
 /-- `filter <filterName> <rawHex>` → `filterRaw` output. -/
 def filterOp : Op
   | [filter, raw] =>
@@ -82,6 +92,6 @@ def tagsOp : Op
     if ts.isEmpty then "-" else ",".intercalate (ts.map Bytes.toHex)
   | _ => bad
 
-def renderOps : List (String × Op) := [("render", renderOp), ("filter", filterOp), ("tok", tokOp), ("tags", tagsOp)]
+def renderOps : List (String × Op) := [("render", renderOp), ("filter", filterOp), ("seams", seamsOp), ("tok", tokOp), ("tags", tagsOp)]
 
 end CM.Ops
